@@ -535,6 +535,9 @@ def h_inverse_tail(ctx, d, order):
             continue  # level outside the range of the tail integral on the search interval
         clamp = (1e-20, -1e-20)
         if not V.is_sym(x) and x in clamp:
+            # the search interval ends at +-1e-20: that end is only the answer when the level is beyond the tail integral there
+            edge = mdl.marginal_tail_integral(i, x)
+            ctx.prove("C12.inverse_tail_integral_is_clamped_only_beyond_the_range", (y >= edge) if x > 0 else (y <= edge), info={"margin": i, "clamp": x}, replay=rp)
             continue
         back = mdl.marginal_tail_integral(i, x)
         ctx.prove("C12.inverse_tail_integral_inverts_the_tail_integral", AND(EQ(back, y), (x > 0) if bool(y > 0) else (x < 0)), info={"margin": i, "call": k, "order": list(order)}, replay=rp)
